@@ -10,6 +10,31 @@ from common import VERIF  # noqa: E402
 TECH = "contract harnesses on the real crate discharged by Kani/CBMC (full-domain symbolic, loop-free = complete; containers bounded and labelled) + Verus history lemmas over the same contract predicates + Verus on verbatim-extracted functions"
 
 CHECKS = {
+    "C01": {
+        "text": "PARTIAL -- this check does not prove C01 end to end; it decides the receiver- and sender-side component obligations that are within the verifier's reach and the history lemma that connects them. Discharged on the real code (Kani/CBMC): Slot::{try_write_reader, unsplit, skip_until, consume, read_chunk, observers} against the view (start, filled bytes, end_allocated) on 8-byte buffers with symbolic offsets (bounded); Reassembler::allocate_slot / allocation_size / align_offset (full); and, modularly (Slot methods replaced by stubs that assert the callee precondition and assume exactly the Slot postconditions proved above, K <= 2 slots, thorough tier), Reassembler::{pop, pop_watermarked, read_chunk, skip, len, consumed_len, total_received_len, final_size, is_reading_complete} against the view (recv, start, final). Verus proves for every sequence of consistent writes (any order, multiplicity, overlap), pops and skips that what is delivered is a prefix of the sent stream and a clean end means the whole stream (layer L).",
+        "note": "NOT discharged: the Reassembler write path (write_at / write_reader / unsplit_range orchestration over the slot queue) -- every modular variant stayed in symbolic execution beyond 15-25 min; the write obligations of the lemma are therefore backed at Slot level only, and the write-rejection obligations (final-size contradiction, 2^62-1, state unchanged) only by Cursors::handle_reader_fin. ReceiveStream::on_data and the stream API layer (stream/api.rs), stream lookup, and retransmission scheduling are unverified glue; sender-side consistency is C12. A-aead for corrupted datagrams.",
+        "design": "5/C01",
+    },
+    "C05": {
+        "text": "Every codec is compared with an independent transcription of RFC 9000 16-19 (and RFC 9221 4) written without s2n-codec: varint encode/decode over all 2^62 values including the unsafe wide-write path and encode_updated, decoder totality and agreement with the reference parser on every input of 0..=9 bytes, packet-number wire form, and -- per frame type -- encoder output == oracle bytes with the announced size, decoder on oracle bytes (+ trailing bytes), exact-capacity writes; fixed-shape frames over full field domains, payload-carrying frames bounded (payload <= 4 bytes, stated per harness); agreement of the real decoders with the reference parser on arbitrary inputs (bounded by length); packet-header decode totality on arbitrary datagrams (bounded). Discharged by Kani/CBMC; the VarInt range arithmetic is additionally verified by Verus on the extracted bodies. Packet-number expansion (RFC A.3) and transport-parameter encodings are shared with C08 / C14.",
+        "note": "Quick tier = varint, packet numbers, MAX_DATA, MAX_STREAMS, PING/HANDSHAKE_DONE; all other frames are thorough tier (a full thorough pass is hours). NOT decided: ACK frame decoding and its reference agreement (timeouts), the FrameMut tag dispatch as a whole (each arm's decoder is covered, the dispatch table is not), full-domain mixing of all integer fields of ACK / NEW_CONNECTION_ID (length-class shapes instead). Per-frame decoders are called through decode_parameterized(tag) as the dispatch arm does.",
+        "design": "5/C05",
+    },
+    "C11": {
+        "text": "The anti-amplification counter of Path (on_bytes_received credits exactly 3x, on_bytes_transmitted debits, at_amplification_limit / transmission_constraint / clamp_datagram_size, validation only via handshake packet or matching PATH_RESPONSE, no other mutator credits or validates), a bounded history harness on the real Path, stateless_reset::encode_packet (strictly smaller than the trigger, unpredictable bits, token placement, None iff impossible; buffer <= 64 bytes) and the close sender's accounting of close packets are under contract, discharged by Kani/CBMC; Verus derives for every history what the contracts give (allowance >= 3*rx - tx; the stated bound under the hypothesis that no datagram exceeded the remaining allowance). The stated bound itself ('never starts a datagram once sent >= 3x received') FAILS on the pinned code -- the saturating counter forgets overshoot -- and is recorded as a known finding with residual obligations in force.",
+        "note": "NOT decided: the server side of version negotiation (Negotiator::on_packet: memory/time), client Initial padding, PTO arming while limited (recovery::Manager), whether the close sender is only invoked when not limited (ConnectionImpl). The multiplier is concrete per harness.",
+        "design": "5/C11",
+    },
+    "C12": {
+        "text": "StreamId::{initial, nth, next_of_type} (Kani full domain and Verus on the extracted bodies), the CloseSender / Limiter state machine (only the stored close packet is copied; re-armed only by an incoming datagram through the debounce timeout; Closed terminal), the DataSender FIN state machine (finish freezes the length, FIN only at total_len, stop_sending leaves nothing to transmit), PeriodicSync::stop_sync and StreamFlowController::finish (no STREAM_DATA_BLOCKED can follow a reset), SendStream::init_reset (final size never changes, data sender stopped) are under contract on the real code; buffer/View byte identity under retransmission and Transmissions::transmit_interval are bounded thorough-tier harnesses. Verus proves per stream, for every sequence of push / finish / reset / transmit / ack / loss, that wire bytes equal pushed bytes, nothing is sent at or after the final size, the final size is constant and >= the highest sent end, and stream ids strictly increase per type.",
+        "note": "Glue unverified: SendStream::on_transmit ordering of RESET vs data, stream-id allocation in stream/manager.rs (see the stream-manager harnesses where registered), ConnectionImpl switching to the close sender. A-loc: panic::Location::caller() stubbed by a compile-time constant. Time domains in the close-sender harnesses are concrete instants.",
+        "design": "5/C12",
+    },
+    "C16": {
+        "text": "Duplicate window (SlidingWindow: pointwise set model with symbolic witness, full domain), Cursors::handle_reader_fin (the four RFC 9000 4.5 cases, full), Interval algebra (full), Reassembler allocation helpers (full), Slot operations (bounded 8-byte buffers), and -- as one-step inductive obligations from arbitrary well-formed states of concrete shape -- IntervalSet::{insert, insert_front, remove, pop_min, observers} (K <= 2, thorough), the modular Reassembler pop / skip / observers (K <= 2, thorough) and the packet-number map remove (K <= 3, thorough) are discharged on the real code by Kani/CBMC. Deviations found on the pinned code (Interval::from_range_bounds with an excluded start bound; IntervalSet::remove off-by-one at the limit) are strict obligations with residuals (known findings).",
+        "note": "Bounded obligations cover histories in which the container never exceeds the stated K. NOT discharged: Reassembler write path, ack::Ranges::insert_packet_number_range, packet-number map insert / remove_range (CBMC time/crash); IntervalSet's dev self-check is stubbed and its content asserted by the harness.",
+        "design": "5/C16",
+    },
     "C13": {
         "text": "LocalIdRegistry::{register_connection_id, set_active_connection_id_limit, connection_id_interest, on_retire_connection_id, on_packet_ack, on_packet_loss, on_handshake_confirmed} are under contract on the real registry built through the real ConnectionIdMapper (SmallVec, Memo caches and the crate's own check_consistency() run unchanged): consecutive sequence numbers, duplicate id rejected with the state unchanged, never more ids requested than min(peer limit, 3), RETIRE_CONNECTION_ID for a never-issued sequence number or for the packet's own destination id rejected, frame conditions and invariant preservation -- discharged by Kani/CBMC as bounded one-step obligations (K = 1 registered id, thorough tier). Verus proves for every history of register / retire / expire / ack / loss that sequence numbers are consecutive, ids and tokens pairwise distinct and the active count within the peer's limit (quick tier).",
         "note": "Bounded (K = 1) and modular: the shared hash-map operations (LocalIdMap::try_insert/remove, InitialIdMap::remove) are replaced by contract stubs with a ghost log -- hashbrown/SipHash routing ('every datagram addressed to an unretired id reaches its connection') is TRUSTED, not proved. NOT discharged on the code (CBMC memory/time): LocalIdRegistry::on_timeout and on_transmit, all of PeerIdRegistry; the lemma steps for those operations show what the contract would give. The quick tier is the lemma layer only.",
